@@ -9,7 +9,7 @@ import time
 from ..lib import cbuild, tlc
 from ..lib.common import workdir, rmworkdir, seed, log, MachineryError, WORK
 from ..lib.report import Report
-from ..drivers import macrodrv
+from ..drivers import macrodrv, replaylib
 
 PID = 'C17'
 
@@ -143,3 +143,51 @@ def run(tier):
     ]
     rmworkdir('c17')
     return rep.finish()
+
+
+def replay(path):
+    """./check C17 --replay replays/C17-n.json : plant the recorded macro text at the recorded entry of a skool file again (same data
+    bytes, same base / case options), expand it with skool2asm and skool2html of the current tree, and let TLC evaluate
+    Macro!Expand on the recorded term tree against the fresh expansions (MacroCases)."""
+    d, rp = replaylib.load(path, PID)
+    wd = workdir('replay-c17')
+    cbuild.repo_only()
+    if 'tlc_output_tail' in rp:
+        mc = {}
+        model_runs('quick', wd, mc)
+        if 'error' in mc:
+            raise mc['error']
+        rmworkdir('replay-c17')
+        return replaylib.verdict(PID, path, ['model:%s:%s' % (name, inv) for name, r in mc['runs'] for inv in r.violated])
+    replaylib.need(rp, path, 'key', 'text', 'base', 'case', 'bb', 'term', 'locs')
+    if rp['base'] not in macrodrv.BASE_OPTS or rp['case'] not in macrodrv.CASE_OPTS or len(rp['locs']) != len(macrodrv.PLACES):
+        raise MachineryError('unusable replay file %s: unknown base / case option set or place list' % path)
+    # the entry's address is part of the input (#PC, and the addresses the places are rendered at): same slot of the file again,
+    # the slots before it hold plain text
+    ea = rp['locs'][0]['pc']
+    i = (ea - macrodrv.entry_address(0)) // 4
+    if not 0 <= i < 64 or macrodrv.entry_address(i) != ea:
+        raise MachineryError('unusable replay file %s: entry address %s' % (path, ea))
+    asm, htm, exc = macrodrv.run_tools(['x'] * i + [rp['text']], rp['bb'], rp['base'], rp['case'], wd, 'replay')
+    locs = []
+    for k, (pname, off) in enumerate(macrodrv.PLACES):
+        a, h = asm[i][k], htm[i][k]
+        if (a is None or h is None) and not exc:
+            exc = 'expansion not found at %s (asm %s, html %s)' % (pname, a is not None, h is not None)
+        locs.append({'pc': ea + off, 'asm': macrodrv.codes(a or ''), 'html': macrodrv.codes(h or '')})
+    c = {'term': rp['term'], 'base': rp['base'], 'case': rp['case'], 'bo': macrodrv.BO, 'bb': rp['bb'], 'locs': locs, 'exc': exc[:600]}
+    r, fails = tlc.judge('macro', 'MacroCases', 'MacroCases.cfg', [c], casefile=os.path.join(wd, 'cases.json'))
+    found = []
+    for _, clause in fails:
+        kind, _, place = clause.partition(':')
+        if kind == 'undefined':
+            raise MachineryError('recorded text outside the specified domain: %s %s' % (rp['key'], rp['text']))
+        what = 'macro:%s: %s %s text %r: clause %s' % (kind, rp['key'], ' '.join(macrodrv.BASE_OPTS[rp['base']] + macrodrv.CASE_OPTS[rp['case']]), rp['text'], clause)
+        if exc:
+            what += ' error: ' + exc
+        elif place:
+            k = int(place) - 1
+            what += ' (%s) asm=%r html=%r' % (macrodrv.PLACES[k][0], ''.join(map(chr, locs[k]['asm'])), ''.join(map(chr, locs[k]['html'])))
+        found.append(what)
+    rmworkdir('replay-c17')
+    return replaylib.verdict(PID, path, found)
